@@ -139,12 +139,13 @@ SPECS["C09"] = {
                    "timestamp, source, tags; an expired series leaves no empty name entry. Because the pre-state is arbitrary this covers histories of any "
                    "length. A history harness (real constructor, one datapoint of a symbolic type at T, three flushes at symbolic non-decreasing times) "
                    "cross-checks 'reported exactly until and including the first flush more than the expiry after T'.",
-    "bounds": {"quick": "all int64 expiries x 4 types, all 0 <= ts <= now < 2^62; histories of 3 and 5 flushes, and of 4 flushes with a second datapoint arriving before a symbolic one of them (the expiry then counts from that datapoint; an expired series is created again)", "thorough": "same"},
+    "bounds": {"quick": "all int64 expiries x 4 types, all 0 <= ts <= now < 2^62; histories of 3 and 5 flushes, and of 4 flushes with a second datapoint arriving before a symbolic one of them (the expiry then counts from that datapoint; an expired series is created again)", "thorough": "adds histories of 8 flushes and of 6 flushes with a second datapoint"},
     "outside": ["timestamps at or beyond 2^62 (subtraction overflow)", "concurrent ReceiveMap during a flush (single-owner discipline, structural)"],
     "assumptions": STUBS_COMMON + [MATH_NOTE, TIME_MODEL],
     "jobs": [
         {"pkg": "./pkg/statsd", "harness": "pkg/statsd", "mode": "math",
-         "entries": {"quick": ["VerifC09_Step", "VerifC09_Hist", "VerifC09_Hist5", "VerifC09_HistResend", "VerifC09_Twin"]},
+         "entries": {"quick": ["VerifC09_Step", "VerifC09_Hist", "VerifC09_Hist5", "VerifC09_HistResend", "VerifC09_Twin"],
+                     "thorough": ["VerifC09_Step", "VerifC09_Hist", "VerifC09_Hist5", "VerifC09_Hist8", "VerifC09_HistResend", "VerifC09_HistResend6", "VerifC09_Twin"]},
          "reach": {"VerifC09_Step": ["counter-survives", "counter-expired"], "VerifC09_Hist": ["alive-after-3", "expired-in-history"]},
          "twin": {"VerifC09_Twin": True},
          "limits": {"quick": {"timeout": "600s"}, "thorough": {"timeout": "600s"}}},
@@ -437,7 +438,7 @@ SPECS["C15"] = {
                    "(1..3 slots), three epochs of 0..2 dispatches separated by flushes into a harness sink; the flushed slices, examined only at the end, hold exactly their epoch's "
                    "datapoints (no aliasing between what was handed over and the maps new datapoints land in).",
     "bounds": {"quick": "pipeline: 0, 1, 3 datapoints over 2 names, 1..3 consolidator slots; <= 5 attempts (unwinding bound: longer scripts are cut by an assumption); invalid-UTF-8 tags of 1..2 arbitrary bytes; 1..2 series with 2..3 tags each (symbolic prefix region:/env:/none, one symbolic byte), two dynamic header names",
-               "thorough": "same"},
+               "thorough": "adds <= 7 attempts, 3 arbitrary tag bytes, 2 series x 3 tags, a pipeline of 5 datapoints"},
     "outside": ["concurrent dispatch versus Drain/Fill of the consolidator and the semaphores under REAL scheduling (PIPELINE-CONC explores the cooperative interleavings only: goroutines switch at blocking "
                 "operations and at the yields of the harness)", "http.Client behaviour (timeouts, redirects)",
                 "MergeMaps conservation is C07"],
@@ -445,7 +446,8 @@ SPECS["C15"] = {
     "jobs": [
         {"pkg": "./pkg/statsd", "harness": "pkg/statsd", "mode": "machine",
          "entries": {"quick": ["VerifC15_Retry2", "VerifC15_Retry3", "VerifC15_Retry5", "VerifC15_RetryNone", "VerifC15_Utf8_1", "VerifC15_Utf8_2",
-                               "VerifC15_Split_1_2", "VerifC15_Split_1_3", "VerifC15_Split_2_2", "VerifC15_Header", "VerifC15_Pipeline0", "VerifC15_Pipeline1", "VerifC15_Pipeline3", "VerifC15_PipelineConc", "VerifC15_Consolidator", "VerifC15_Twin"]},
+                               "VerifC15_Split_1_2", "VerifC15_Split_1_3", "VerifC15_Split_2_2", "VerifC15_Header", "VerifC15_Pipeline0", "VerifC15_Pipeline1", "VerifC15_Pipeline3", "VerifC15_PipelineConc", "VerifC15_Consolidator", "VerifC15_Twin"],
+                     "thorough": ["VerifC15_Retry2", "VerifC15_Retry3", "VerifC15_Retry5", "VerifC15_RetryNone", "VerifC15_Utf8_1", "VerifC15_Utf8_2", "VerifC15_Split_1_2", "VerifC15_Split_1_3", "VerifC15_Split_2_2", "VerifC15_Header", "VerifC15_Pipeline0", "VerifC15_Pipeline1", "VerifC15_Pipeline3", "VerifC15_PipelineConc", "VerifC15_Consolidator", "VerifC15_Retry7", "VerifC15_Utf8_3", "VerifC15_Split_2_3", "VerifC15_Pipeline5", "VerifC15_Twin"]},
          "reach": {"VerifC15_Retry3": ["dropped", "sent", "retried"], "VerifC15_Utf8_1": ["posted"], "VerifC15_Split_2_2": ["split"], "VerifC15_Header": ["header"], "VerifC15_Pipeline3": ["pipeline"],
                    "VerifC15_PipelineConc": ["pipeline-conc"], "VerifC15_Consolidator": ["consolidated"]},
          "blocked_is_violation": True,
@@ -489,12 +491,13 @@ SPECS["C19"] = {
                    "successful lookup; source = sender address or instance id; both wait-group counters are back to 0 and the semaphore is empty after WaitForEvents; with 0 backends nothing "
                    "blocks. TWO EVENTS: two event lines in one datagram, or one each from two senders (symbolic), parked together on a cache miss with the lookup answers arriving in a "
                    "symbolic order: each backend receives each event exactly once with its own title and its own sender's source. The HTTP ingestion endpoint and forwarder mode are exercised by the C14 event entry (real EventHandler and dispatchEvent).",
-    "bounds": {"quick": "0..3 backends, 1..3 concurrent events, one or two events per run, fields of 1..3 bytes", "thorough": "same"},
+    "bounds": {"quick": "0..3 backends, 1..3 concurrent events, one or two events per run, fields of 1..3 bytes", "thorough": "adds two events with three backends"},
     "outside": ["concurrent senders and real goroutine interleavings", "the 20 s per-event timeout context (modelled as a context that is never cancelled)"],
     "assumptions": STUBS_COMMON + [PF_STUB, TIME_MODEL, "context.WithTimeout/WithDeadline return a cancellable context whose deadline never fires"],
     "jobs": [
         {"pkg": "./pkg/statsd", "harness": "pkg/statsd", "mode": "machine", "blocked_is_violation": True,
-         "entries": {"quick": ["VerifC19_0", "VerifC19_1", "VerifC19_2", "VerifC19_3", "VerifC19_Two1", "VerifC19_Two2", "VerifC19_Twin"]},
+         "entries": {"quick": ["VerifC19_0", "VerifC19_1", "VerifC19_2", "VerifC19_3", "VerifC19_Two1", "VerifC19_Two2", "VerifC19_Twin"],
+                     "thorough": ["VerifC19_0", "VerifC19_1", "VerifC19_2", "VerifC19_3", "VerifC19_Two1", "VerifC19_Two2", "VerifC19_Two3", "VerifC19_Twin"]},
          "reach": {"VerifC19_2": ["after-lookup", "cache-hit", "delivered"], "VerifC19_Two2": ["after-lookup", "two-senders", "delivered-two"]},
          "twin": {"VerifC19_Twin": True},
          "limits": {"quick": {"timeout": "600s"}, "thorough": {"timeout": "600s"}}},
